@@ -16,6 +16,7 @@ import (
 
 	"github.com/olric-data/olric/config"
 	"github.com/olric-data/olric/verifharness/cluster"
+	"github.com/olric-data/olric/verifharness/sched"
 	"github.com/olric-data/olric/verifharness/trace"
 )
 
@@ -541,6 +542,53 @@ func TestC08(t *testing.T) {
 			rec.Run("c08", scripts, nil)
 			record(w, rec, &seq, sum, seen, trace.Ev{"cfg": cfg}, func(h *History) bool { return h.Overlap })
 		}
+		// Expiry races: the holder's Unlock (or Lease) is held at the point between its token check
+		// and its effect until the lock has timed out and a competitor has taken it.  The gate only
+		// decides when the goroutine continues; the verdict comes from the recorded replies.
+		ctl := sched.Install(int64(envInt("VERIF_SEED", 1)))
+		races := envInt("VERIF_RACES", 3)
+		for b := 0; b < races; b++ {
+			for _, kind := range []string{"unlock", "lease"} {
+				rec := NewRecorder()
+				key := fmt.Sprintf("race%d-%s-%d", R, kind, b)
+				pa, pb, pc := paths[rng.Intn(len(paths))], paths[rng.Intn(len(paths))], paths[rng.Intn(len(paths))]
+				g := ctl.Hold(kind+".checked", 0, sched.KeyIs("c08", key))
+				go func() {
+					if _, ok := g.WaitArrived(3 * time.Second); ok {
+						time.Sleep(ms(110))
+					}
+					g.Release()
+				}()
+				var scripts []Script
+				if kind == "unlock" {
+					scripts = []Script{
+						{Client: "a", Path: pa, Steps: []Step{{Op: "lock", Key: key, D: ms(100), Deadline: ms(100)},
+							{Op: "sleep", D: ms(60)}, {Op: "unlock", Key: key}}},
+						{Client: "b", Path: pb, Steps: []Step{{Op: "lock", Key: key, D: 0, Deadline: ms(500), At: ms(30)},
+							{Op: "sleep", D: ms(500)}, {Op: "unlock", Key: key}}},
+						{Client: "c", Path: pc, Steps: []Step{{Op: "lock", Key: key, D: 0, Deadline: ms(150), At: ms(300)},
+							{Op: "unlock", Key: key}}},
+					}
+				} else {
+					scripts = []Script{
+						{Client: "a", Path: pa, Steps: []Step{{Op: "lock", Key: key, D: ms(100), Deadline: ms(100)},
+							{Op: "sleep", D: ms(60)}, {Op: "lease", Key: key, D: ms(300)}}},
+						{Client: "b", Path: pb, Steps: []Step{{Op: "lock", Key: key, D: 0, Deadline: ms(500), At: ms(30)},
+							{Op: "sleep", D: ms(900)}, {Op: "unlock", Key: key}}},
+						{Client: "c", Path: pc, Steps: []Step{{Op: "lock", Key: key, D: 0, Deadline: ms(150), At: ms(650)},
+							{Op: "unlock", Key: key}}},
+					}
+				}
+				for _, sc := range scripts {
+					sum.Paths[sc.Path.Name()]++
+					sum.Evaluations += len(sc.Steps)
+				}
+				rec.Run("c08", scripts, nil)
+				g.Release()
+				record(w, rec, &seq, sum, seen, trace.Ev{"cfg": cfg, "race": kind}, func(h *History) bool { return h.Overlap })
+			}
+		}
+		ctl.Reset()
 		for _, p := range paths {
 			p.Close()
 		}
